@@ -96,10 +96,12 @@ impl OligoCfg {
     }
 }
 
+/// records of a case for replay files (complete up to 3000 records; beyond that the head only and the
+/// replay says so)
 pub fn recs_json(recs: &[Rec]) -> Json {
     Json::Arr(
         recs.iter()
-            .take(40)
+            .take(3000)
             .map(|r| Json::obj().set("id", Json::s(r.id.clone())).set("seq", Json::bytes(&r.seq)))
             .collect(),
     )
